@@ -55,3 +55,14 @@ def call_rule(name, ts, args):
         rj = {"k": "E"}
     after = [qa.val_json(a) for a in args]
     return {"rule": name, "ts": qa.ts_json(ts), "a": before, "a2": after, "res": rj}
+
+
+def call_post(ts, v):
+    """Row for the latent post-processing step applied to value v."""
+    from ctparse.time.postprocess_latent import apply_postprocessing_rules
+    before = [qa.val_json(v)]
+    try:
+        rj = qa.val_json(apply_postprocessing_rules(ts, v))
+    except Exception:  # noqa: BLE001
+        rj = {"k": "E"}
+    return {"rule": "postprocess", "ts": qa.ts_json(ts), "a": before, "a2": [qa.val_json(v)], "res": rj}
